@@ -694,6 +694,74 @@ Section RF_PROOFS.
   Qed.
 End RF_PROOFS.
 
+(** ** "cannot (de)crypt because something is missing" ends in the dedicated signal *)
+Section RF_MISSING.
+  Variable E : bytes -> bytes -> bytes.
+
+  (** a frame whose security flag is clear: MissingRF4CESecurityFlag, whatever else is given *)
+  Theorem rf_flag_clear_dedicated : forall key x,
+    rf_sec (r_fctl x) = false -> rf_decrypt E std_variant key x = RRaise MissingSecurityFlag.
+  Proof. intros key x H. unfold rf_decrypt. cbn [std_variant v_legacy negb andb]. rewrite H. reflexivity. Qed.
+
+  (** a missing source or destination address: (packet, False), never an exception *)
+  Theorem rf_missing_address_dedicated : forall key x,
+    r_src x = None \/ r_dst x = None ->
+    (exists b, rf_encrypt E std_variant key x = RTuple b false) /\
+    (rf_sec (r_fctl x) = true -> exists b, rf_decrypt E std_variant key x = RTuple b false).
+  Proof.
+    intros key x H. split.
+    - unfold rf_encrypt. cbn [std_variant v_legacy negb orb]. rewrite orb_true_r.
+      destruct (r_src x); [|eexists; reflexivity].
+      destruct H as [H|H]; [discriminate|]. rewrite H. eexists; reflexivity.
+    - intros Hs. unfold rf_decrypt. cbn [std_variant v_legacy negb andb]. rewrite Hs. cbn [negb].
+      rewrite orb_true_r.
+      destruct (r_src x); [|eexists; reflexivity].
+      destruct H as [H|H]; [discriminate|]. rewrite H. eexists; reflexivity.
+  Qed.
+
+  (** no RF4CE layer in the packet: MissingRF4CEHeader *)
+  Theorem rf_no_header_dedicated : forall v key,
+    rf_encrypt_top E v key None = RRaise MissingHeader /\ rf_decrypt_top E v key None = RRaise MissingHeader.
+  Proof. intros. split; reflexivity. Qed.
+
+  (** and nothing else is ever raised: encrypt() raises nothing once the packet has an RF4CE
+      header, decrypt() only MissingRF4CESecurityFlag *)
+  Theorem rf_only_dedicated_errors : forall key o e,
+    (rf_encrypt_top E std_variant key o = RRaise e -> e = MissingHeader) /\
+    (rf_decrypt_top E std_variant key o = RRaise e -> e = MissingHeader \/ e = MissingSecurityFlag).
+  Proof.
+    intros key [x|] e; cbn [rf_encrypt_top rf_decrypt_top]; split; intros H;
+      try (injection H as <-; auto; fail).
+    - exfalso. unfold rf_encrypt in H. cbn [std_variant v_legacy negb andb orb] in H.
+      rewrite !orb_true_r in H.
+      destruct (r_src x); [|discriminate]. destruct (r_dst x); [|discriminate].
+      destruct (Nat.eqb _ 0); discriminate.
+    - right. unfold rf_decrypt in H. cbn [std_variant v_legacy negb andb orb] in H.
+      destruct (rf_sec (r_fctl x)) eqn:Hs; cbn [negb] in H; [|injection H as <-; reflexivity].
+      rewrite !orb_true_r in H.
+      destruct (r_src x); [|discriminate]. destruct (r_dst x); [|discriminate].
+      destruct (ccm_decrypt E 4 2 key _ _ _ _); discriminate.
+  Qed.
+
+  (** legacy code: struct.error / AttributeError instead *)
+  Lemma rf_legacy_flag_clear_struct_error : forall key x src dst,
+    r_src x = Some src -> r_dst x = Some dst -> r_has_layer x = true -> rf_sec (r_fctl x) = false ->
+    rf_decrypt E legacy_variant key x = RRaise StructError.
+  Proof.
+    intros key x src dst Hs Hd Hl Hsec. unfold rf_decrypt. cbn [legacy_variant v_legacy negb andb].
+    rewrite Hs, Hd, Hl, Hsec. reflexivity.
+  Qed.
+
+  Lemma rf_legacy_bare_noaddr_attribute_error : forall key x,
+    r_src x = None -> r_has_mac x = false ->
+    rf_encrypt E legacy_variant key x = RRaise AttributeError /\
+    rf_decrypt E legacy_variant key x = RRaise AttributeError.
+  Proof.
+    intros key x Hs Hm. unfold rf_encrypt, rf_decrypt. cbn [legacy_variant v_legacy negb andb].
+    rewrite Hs, Hm. split; reflexivity.
+  Qed.
+End RF_MISSING.
+
 (** ** the CBC-MAC input determines source, frame counter, frame control (reserved bit forced),
     destination and payload: the MIC covers all of them *)
 Theorem rf_auth_injective : forall s s' fc fc' f f' d d' m m',
@@ -849,6 +917,27 @@ Section UN_PROOFS.
     split; [repeat split; assumption|]. split; [reflexivity|]. apply un_build_std_cks; reflexivity.
   Qed.
 End UN_PROOFS.
+
+(** Unifying: a frame that carries no encrypted keystroke payload: the dedicated
+    MissingEncryptedKeystrokePayload, for every variant and key; nothing else is raised on frames
+    whose fields have their fixed lengths *)
+Theorem un_missing_payload_dedicated : forall (E : bytes -> bytes -> bytes) v key p,
+  u_ft p <> 0xD3%N -> un_crypt E v key p = Raise MissingPayload.
+Proof.
+  intros E v key p H. unfold un_crypt. apply N.eqb_neq in H. rewrite H. reflexivity.
+Qed.
+
+Theorem un_only_dedicated_errors : forall (E : bytes -> bytes -> bytes),
+  (forall k b, length (E k b) = 16) ->
+  forall key p e, length (u_hid p) = 7 -> length (u_ctr p) = 4 -> length (u_unused p) = 7 ->
+    un_crypt E std_variant key p = Raise e -> e = MissingPayload.
+Proof.
+  intros E HE key p e Hh Hc Hu H.
+  destruct (N.eqb (u_ft p) 0xD3) eqn:Hft.
+  - apply N.eqb_eq in Hft. rewrite (un_crypt_ok E HE key p) in H by (repeat split; assumption). discriminate.
+  - apply N.eqb_neq in Hft. rewrite (un_missing_payload_dedicated E std_variant key p Hft) in H.
+    injection H as <-. reflexivity.
+Qed.
 
 (** * Concrete witnesses (AES plugged in): the defects of the code before the fix: commits *)
 Local Open Scope N_scope.
